@@ -2,7 +2,7 @@
 
 include!("hmacro.rs");
 
-mod verif_request {
+pub(crate) mod verif_request {
     use super::*;
     use crate::verif::{make_url, DialHost, HostSpec, UrlSpec};
 
@@ -56,6 +56,17 @@ mod verif_request {
                 push(out, n, t);
                 push(out, n, b"]");
             }
+        }
+    }
+
+    /// constructor for harnesses in other modules (PreparedRequest's fields are private to `request`)
+    pub(crate) fn verif_prepared(method: Method, url: Url, st: BaseSettings) -> PreparedRequest<body::Empty> {
+        PreparedRequest {
+            url,
+            method,
+            body: body::Empty,
+            headers: HeaderMap::new(),
+            base_settings: Arc::new(st),
         }
     }
 
